@@ -113,7 +113,7 @@ Lemma Acc_at_update a s s' t k hs :
   (forall t', t' <> t -> thr s' t' = thr s t') ->
   (forall h, ~ In h hs -> hnd s' h = hnd s h) ->
   (forall l0, mrel l0 -> l0 <> k -> mem (sh s') l0 = mem (sh s) l0) ->
-  (forall e, k = LEnv e -> env_unused (mem (sh s)) e) ->
+  (forall e, k = LEnv e -> mem (sh s') (LEnv e) = mem (sh s) (LEnv e) \/ env_unused (mem (sh s)) e) ->
   (forall t', t' <> t -> srefs a (mem (sh s')) (t_stack (thr s t')) = srefs a (mem (sh s)) (t_stack (thr s t'))) ->
   mem (sh s') (LCount a) + wL a (mem (sh s')) k + spend a (t_stack (thr s' t))
      + (wR a (mem (sh s)) k + srefs a (mem (sh s)) (t_stack (thr s t)) + fsum hs (fun h => href a (hnd s h)))
@@ -137,7 +137,9 @@ Proof.
     + rewrite (Hmem (LSlot n j) I (Hk (LSlot n j) eq_refl)). auto.
     + rewrite (Hmem (LStore c) I (Hk (LStore c) eq_refl)). auto.
     + split; [reflexivity|]. apply env_cnt_frame; [apply (Hmem (LCtrl w) I (Hk (LCtrl w) eq_refl))|].
-      intros e Ht ->. apply Hmem; [exact I|]. intros E. symmetry in E. exact (Henv _ E w Ht eq_refl).
+      intros e Ht ->. destruct (decide (LEnv (env_of (mem (sh s) (LCtrl w) - N.land (mem (sh s) (LCtrl w)) TAG_MASK)) = k)) as [E|E].
+      * symmetry in E. destruct (Henv _ E) as [Hs|Hu]; [exact Hs|]. exfalso. exact (Hu w Ht eq_refl).
+      * apply Hmem; [exact I|exact E].
     + assert (Hne : t' <> t). { intros ->. apply Hi. apply in_or_app. right. left. reflexivity. }
       rewrite (Hthr t' Hne), (Hoth t' Hne). auto.
     + rewrite Hhnd; [auto|]. intros Hin. apply Hi. apply in_or_app. right. right. apply in_map. exact Hin.
